@@ -3,10 +3,12 @@ package decorator
 import (
 	"go/ast"
 	"go/token"
+	"go/types"
 	"strconv"
 
 	"github.com/dave/dst"
 	"github.com/dave/dst/decorator/resolver/goast"
+	"github.com/dave/dst/decorator/resolver/gotypes"
 )
 
 // C10: a declaration decorated with import resolution in file A is placed into file B and B is restored
@@ -148,4 +150,137 @@ func VerifC10Move() {
 			vfAssert(again.Path == p && again.Name == "N", "redecorate/same-path-and-name")
 		}
 	}
+}
+
+// VerifC10TwoFiles: two files of one package (same package clause) are decorated by one Decorator with
+// one syntax-based resolver, as decorator.Load does. Both bind the same name (symbolic) to different
+// paths - file A by a plain or aliased import of x.y/a, file B by an alias on x.y/b. The reference in
+// each file must get the path its own file imports, in either decoration order, so that moved code
+// keeps referring to what it referred to.
+func VerifC10TwoFiles() {
+	names := vfNames()
+	name := vfBytes("boundName", 1, "pqr")
+	mk := func(path string, aliased bool) (*dst.File, *dst.SelectorExpr) {
+		spec := &dst.ImportSpec{Path: &dst.BasicLit{Kind: token.STRING, Value: strconv.Quote(path)}}
+		if aliased {
+			spec.Name = &dst.Ident{Name: name}
+		}
+		se := &dst.SelectorExpr{X: &dst.Ident{Name: name}, Sel: &dst.Ident{Name: "N"}}
+		f := &dst.File{Name: &dst.Ident{Name: "p"}, Decls: []dst.Decl{
+			&dst.GenDecl{Tok: token.IMPORT, Specs: []dst.Spec{spec}},
+			&dst.GenDecl{Tok: token.VAR, Specs: []dst.Spec{&dst.ValueSpec{Names: []*dst.Ident{{Name: "_"}}, Values: []dst.Expr{se}}}}}}
+		return f, se
+	}
+	aAliased := vfChoice("a.aliased", 2) == 1
+	if !aAliased {
+		vfAssume(names["a"] == name) // the plain import of "a" binds the resolved package name
+	}
+	fa, sa := mk("a", aAliased)
+	fb, sb := mk("x.y/b", true)
+	r := NewRestorer()
+	afa, _ := r.RestoreFile(fa)
+	afb, _ := r.RestoreFile(fb)
+	calls := 0
+	d := NewDecoratorWithImports(r.Fset, vfLocal, goast.WithResolver(vfResolver{names: names, failAt: -1, calls: &calls}))
+	var e1, e2 error
+	if vfChoice("order", 2) == 0 {
+		_, e1 = d.DecorateFile(afa)
+		_, e2 = d.DecorateFile(afb)
+	} else {
+		_, e2 = d.DecorateFile(afb)
+		_, e1 = d.DecorateFile(afa)
+	}
+	vfAssert(e1 == nil && e2 == nil, "decorate-ok")
+	if e1 != nil || e2 != nil {
+		return
+	}
+	vfReach("decorated-both")
+	ia, oka := d.Dst.Nodes[r.Ast.Nodes[sa]].(*dst.Ident)
+	ib, okb := d.Dst.Nodes[r.Ast.Nodes[sb]].(*dst.Ident)
+	vfAssert(oka && okb, "qualified-identifiers-collapsed")
+	if oka && okb {
+		vfAssert(ia.Path == "a", "reference-gets-the-path-its-own-file-imports")
+		vfAssert(ib.Path == "x.y/b", "reference-gets-the-path-its-own-file-imports")
+	}
+}
+
+// VerifC10LocalPath: with ResolveLocalPath (the option for moving code into another package) a
+// reference to a package-level declaration of the decorated package gets the package's own path - also
+// when the declaration is in the same file, so that the parser has already linked the identifier to it
+// (Ident.Obj) - and is written qualified when restored into another package.
+func VerifC10LocalPath() {
+	same := &dst.FuncDecl{Name: &dst.Ident{Name: "Same"}, Type: &dst.FuncType{Func: true, Params: &dst.FieldList{Opening: true, Closing: true}}, Body: &dst.BlockStmt{}}
+	use := &dst.Ident{Name: "Same"}
+	moved := &dst.FuncDecl{Name: &dst.Ident{Name: "Moved"}, Type: &dst.FuncType{Func: true, Params: &dst.FieldList{Opening: true, Closing: true}},
+		Body: &dst.BlockStmt{List: []dst.Stmt{&dst.ExprStmt{X: &dst.CallExpr{Fun: use}}}}}
+	f := &dst.File{Name: &dst.Ident{Name: "pkg"}, Decls: []dst.Decl{same, moved}}
+	r := NewRestorer()
+	af, _ := r.RestoreFile(f)
+	aUse := r.Ast.Nodes[use].(*ast.Ident)
+	aSame := r.Ast.Nodes[same].(*ast.FuncDecl)
+	if vfChoice("sameFile", 2) == 1 {
+		// declared in this file: the parser links use and declaration
+		obj := &ast.Object{Kind: ast.Fun, Name: "Same", Decl: aSame}
+		aSame.Name.Obj, aUse.Obj = obj, obj
+	}
+	local := types.NewPackage(vfLocal, "pkg")
+	uses := map[*ast.Ident]types.Object{aUse: types.NewFunc(token.NoPos, local, "Same", types.NewSignature(nil, nil, nil, false))}
+	d := NewDecoratorWithImports(r.Fset, vfLocal, gotypes.New(uses))
+	d.ResolveLocalPath = true
+	out, err := d.DecorateFile(af)
+	vfAssert(err == nil, "decorate-ok")
+	if err != nil {
+		return
+	}
+	dUse := d.Dst.Nodes[aUse].(*dst.Ident)
+	vfAssert(dUse.Path == vfLocal, "local-reference-carries-the-local-path")
+	// restore into another package: the reference is qualified with the original package's name
+	calls := 0
+	res := NewRestorerWithImports("other/pkg", vfResolver{names: map[string]string{vfLocal: "pkg"}, failAt: -1, calls: &calls})
+	af2, err2 := res.RestoreFile(out)
+	vfAssert(err2 == nil, "restore-ok")
+	if err2 != nil {
+		return
+	}
+	sel, isSel := res.Ast.Nodes[dUse].(*ast.SelectorExpr)
+	vfAssert(isSel, "moved-reference-is-qualified-in-the-other-package")
+	if isSel {
+		x, _ := sel.X.(*ast.Ident)
+		vfAssert(x != nil && x.Name == "pkg" && sel.Sel.Name == "Same", "moved-reference-is-qualified-in-the-other-package")
+	}
+	_ = af2
+}
+
+// VerifC08GoastNames: the syntax-based decorator resolver with an accurate package-name resolver on an
+// un-aliased import whose package name (symbolic) is not the last element of its path (as with major
+// version suffixes or go-prefixed repositories): the qualified identifier collapses to the imported path
+// and an unedited restore leaves the import declaration as it was.
+func VerifC08GoastNames() {
+	names := map[string]string{"x.y/lib": vfBytes("pkgName", 1, "lmn"), "x.y/v2": vfBytes("pkgName2", 1, "lmn")}
+	path := []string{"x.y/lib", "x.y/v2"}[vfChoice("path", 2)]
+	spec := &dst.ImportSpec{Path: &dst.BasicLit{Kind: token.STRING, Value: strconv.Quote(path)}}
+	se := &dst.SelectorExpr{X: &dst.Ident{Name: names[path]}, Sel: &dst.Ident{Name: "N"}}
+	f := &dst.File{Name: &dst.Ident{Name: "p"}, Decls: []dst.Decl{
+		&dst.GenDecl{Tok: token.IMPORT, Specs: []dst.Spec{spec}},
+		&dst.GenDecl{Tok: token.VAR, Specs: []dst.Spec{&dst.ValueSpec{Names: []*dst.Ident{{Name: "_"}}, Values: []dst.Expr{se}}}}}}
+	r := NewRestorer()
+	af, _ := r.RestoreFile(f)
+	calls := 0
+	d := NewDecoratorWithImports(r.Fset, vfLocal, goast.WithResolver(vfResolver{names: names, failAt: -1, calls: &calls}))
+	out, err := d.DecorateFile(af)
+	vfAssert(err == nil, "decorate-ok")
+	if err != nil {
+		return
+	}
+	id, ok := d.Dst.Nodes[r.Ast.Nodes[se]].(*dst.Ident)
+	vfAssert(ok, "qualified-identifier-collapsed")
+	if ok {
+		vfAssert(id.Path == path && id.Name == "N", "qualified-identifier-carries-the-imported-path")
+	}
+	before := dst.Clone(out).(*dst.File)
+	rc := 0
+	_, rerr := NewRestorerWithImports(vfLocal, vfResolver{names: names, failAt: -1, calls: &rc}).RestoreFile(out)
+	vfAssert(rerr == nil, "restore-ok")
+	vfAssert(len(out.Decls) == len(before.Decls), "decls-unchanged")
+	vfAssert(vfDeepEqual(out.Decls[0], before.Decls[0]), "import-block-unchanged")
 }
